@@ -12,6 +12,8 @@
 (*                  specification's own steps) must hold of the step.      *)
 (*  kind "quiesce"  the state after 2-4 goroutines have finished a round   *)
 (*                  of free-running operations on one model                *)
+(*  kind "cclear"   one response of ClearActiveMode given while other      *)
+(*                  goroutines were writing                                *)
 (*  kind "mstream"  the table obtained by folding everything PullModes     *)
 (*                  delivered so far (one line per delivered change)       *)
 (*  kind "aevent"   one delivery of PullActiveMode with the one before it  *)
@@ -30,11 +32,11 @@ Obs == ndJsonDeserialize("obs.ndjson")
 SeqIds(seq) == { seq[k].id : k \in 1..Len(seq) }
 ModesOf(seq) == [i \in SeqIds(seq) |->
                    LET k == CHOOSE k \in 1..Len(seq) : seq[k].id = i
-                   IN [normal |-> seq[k].normal, title |-> seq[k].title]]
+                   IN [normal |-> seq[k].normal, title |-> seq[k].title, start |-> seq[k].start]]
 StateOf(s, changed) == [modes |-> ModesOf(s.modes), active |-> s.active, changed |-> changed]
 
 \* the step a "step" line records, in the shape of Electric.tla
-XOf(t) == [pre |-> StateOf(t.pre, t.changed), now |-> t.now, op |-> t.op, err |-> t.err,
+XOf(t) == [pre |-> StateOf(t.pre, t.changed), now |-> t.now, op |-> t.op, err |-> t.err, ret |-> t.ret,
            post |-> StateOf(t.post, t.changed \/ (t.op.op \in ActiveOps /\ t.err = "OK"))]
 
 \* the three state clauses of C19 on a state seen while / after goroutines ran
@@ -52,6 +54,12 @@ Fails(t) ==
          \* changes, so only their sum at quiescence is looked at)
          \cup (IF t.drained
                THEN { "streamed-" \o c : c \in ConcFails(ModesOf(t.folded), t.lastActive, t.changed) } ELSE {})
+    [] t.kind = "cclear" ->
+         \* a response of ClearActiveMode given while other goroutines were writing (random mix; one
+         \* goroutine moving the normal flag between two modes; a forced schedule with the flag moved
+         \* while the clear waits for the model lock): lookup and switch are one atomic step, so the
+         \* returned mode - the copy taken at the instant of the switch - is normal
+         If(t.err # "Panic", "panic") \cup If(ClearResponseNormal(t.err, t.ret), "clear-selects-normal")
     [] t.kind = "mstream" ->
          \* every table a subscriber with backpressure sees (reliable: nothing is dropped or merged on
          \* such a stream and the fold equalled Modes() at the next quiescent point, i.e. it is the
